@@ -1,6 +1,6 @@
 (* C06 — every registration object that reaches a dial site carries a covert produced by the policy check. *)
 From Coq Require Import Lia.
-From CJ Require Import Common.Base C06.Model C06.Proofs C06.IPText C06.IPTextProofs C06.ModelIngest.
+From CJ Require Import Common.Base C06.Model C06.Proofs C06.IPText C06.IPTextProofs C06.IPTextWf C06.ModelIngest.
 
 Lemma find_entry_in st k e : find_entry st k = Some e -> In e st /\ e_key e = k.
 Proof.
@@ -215,32 +215,58 @@ Section Ingest.
   Proof. cbn [ModelIngest.step fst snd]. apply find_remove_same. Qed.
 End Ingest.
 
+(* ---------------------------------------------------------------- what is asked of the NAME SYSTEM: its answers are
+   made of bytes and carry no bracket in a zone (DNS answers carry no zone at all).  Everything about literals is proved. *)
+Definition names_ok (names : bytes -> option (ipraw * bytes)) : Prop :=
+  forall h a z, names h = Some (a, z) -> wf_bytes a = true /\ no_brackets z = true.
+
+Lemma names_ok_laws names : names_ok names -> zone_law (resolve_with names) /\ resolver_wf (resolve_with names).
+Proof.
+  intro H. split.
+  - apply zone_law_concrete. intros h a z Hn. now destruct (H h a z Hn).
+  - apply resolver_wf_concrete. intros h a z Hn. now destruct (H h a z Hn).
+Qed.
+
+(* the single-call dial statement with nothing assumed but names_ok of the admission-time name system *)
+Lemma dial_target_is_checked_names names names_later re_match pol s out lk :
+  names_ok names ->
+  parse_or_resolve parse_ip_c (resolve_with names) ip_str_c re_match pol s = (Some out, lk) ->
+  exists host port a z a',
+    split_host_port s = Some (host, port) /\ resolve_with names host = Some (a, z) /\
+    valid_ip a = true /\ blocked pol a = false /\
+    dial_target (resolve_with names_later) out = Some (a', z, port) /\
+    norm a' = norm a /\ blocked pol a' = false.
+Proof.
+  intros Hn. destruct (names_ok_laws names Hn) as (Hz & Hwf).
+  exact (dial_target_is_checked_q ip_str_c ip_str_c_no_brackets parse_ip_c re_match (resolve_with names)
+           (resolve_with names_later) pol s out lk Hz Hwf (literal_law_concrete names_later)).
+Qed.
+
 (* ---------------------------------------------------------------- with the concrete text functions: every
    dialled string is the literal of an address the policy in force at admission permitted, and whatever the name
    system says when the connection is made, net.Dial of that string reaches that address and that port *)
 Lemma every_dial_checked_concrete :
   forall (names_at : nat -> bytes -> option (ipraw * bytes)) names_later re_match pol0 ops i k c,
-    (forall m, zone_law (resolve_with (names_at m))) -> (forall m, resolver_wf (resolve_with (names_at m))) ->
+    (forall m, names_ok (names_at m)) ->
     In (i, EDial k c) (snd (run parse_ip_c (fun m => resolve_with (names_at m)) ip_str_c re_match pol0 0 [] ops)) ->
     exists pre r ok post host port a z a',
       ops = pre ++ IIngest r ok :: post /\ (length pre <= i)%nat /\ g_key r = k /\
       split_host_port (g_covert r) = Some (host, port) /\ port_ok port = true /\
       dom_blocked re_match (policy_after_i pol0 pre) host = false /\
-      resolve_with (names_at (length pre)) host = Some (a, z) /\ valid_ip a = true /\
+      resolve_with (names_at (length pre)) host = Some (a, z) /\ valid_ip a = true /\ zoned_v4 a z = false /\
       blocked (policy_after_i pol0 pre) a = false /\
       c = join_host_port (ip_text ip_str_c a z) port /\
       dial_target (resolve_with names_later) c = Some (a', z, port) /\
       norm a' = norm a /\ blocked (policy_after_i pol0 pre) a' = false.
 Proof.
-  intros names_at names_later re_match pol0 ops i k c Hz Hwf Hin.
+  intros names_at names_later re_match pol0 ops i k c Hn Hin.
   destruct (handoffs_admitted _ _ _ _ pol0 ops i _ k c Hin (or_introl eq_refl))
     as (m & Hm & pre & r & ok & post & lk & -> & -> & Hk & Hp).
   cbn [Nat.add] in *.
   destruct (accepted_is_checked_literal _ _ _ _ _ _ _ _ Hp)
-    as (host & port & a & z & _ & Hs & Hpo & Hd & Hr & Hv & Hb & Hout & _).
-  destruct (dial_target_is_checked_q ip_str_c ip_str_c_no_brackets parse_ip_c re_match _ (resolve_with names_later) _ _ _ _
-              (Hz (length pre)) (Hwf (length pre)) (literal_law_concrete names_later) Hp)
-    as (host' & port' & a0 & z0 & a' & Hs' & Hr' & _ & _ & Hdt & Hn & Hb').
+    as (host & port & a & z & _ & Hs & Hpo & Hd & Hr & Hv & Hb & Hout & _ & Hzv).
+  destruct (dial_target_is_checked_names _ names_later _ _ _ _ _ (Hn (length pre)) Hp)
+    as (host' & port' & a0 & z0 & a' & Hs' & Hr' & _ & _ & Hdt & Hnm & Hb').
   rewrite Hs in Hs'. injection Hs' as <- <-. rewrite Hr in Hr'. injection Hr' as <- <-.
   exists pre, r, ok, post, host, port, a, z, a'. repeat split; auto.
 Qed.
